@@ -645,9 +645,9 @@ struct H {
             if (!usable) {
                 PBT_CHECK(c, !oka && !okb, "C07.apply_shape", "save #%d: vnacal_apply_m accepts the %dx%d calibration %s (vnacal(3): square, 1x2 or 2x1 only)", saves, m.t.rows, m.t.cols, nm.c_str());
                 c.label("terms-only(shape not applicable)");
-            } else if (pde == VNACAL_MAX_PRECISION) {
-                PBT_CHECK(c, oka == okb, "C07.apply_differs", "save #%d: vnacal_apply_m on %s %s for the original but %s for the loaded calibration (data saved at MAX precision)", saves, nm.c_str(), oka ? "succeeds" : "fails", okb ? "succeeds" : "fails");
-                if (oka) for (size_t q = 0; q < sa.size(); q++) PBT_CHECK(c, same_bits(sa[q], sb[q]), "C07.apply_differs", "save #%d: %s: S[%zu] = %a%+aj from the original, %a%+aj from the loaded calibration (data saved at MAX precision: must be bit-exact)", saves, nm.c_str(), q, re_(sa[q]), im_(sa[q]), re_(sb[q]), im_(sb[q]));
+            } else if (pde == VNACAL_MAX_PRECISION || pde >= 17) {      // 17 significant digits identify a double: the loaded terms are the same numbers
+                PBT_CHECK(c, oka == okb, "C07.apply_differs", "save #%d: vnacal_apply_m on %s %s for the original but %s for the loaded calibration (data saved at MAX precision or >= 17 digits)", saves, nm.c_str(), oka ? "succeeds" : "fails", okb ? "succeeds" : "fails");
+                if (oka) for (size_t q = 0; q < sa.size(); q++) PBT_CHECK(c, same_bits(sa[q], sb[q]), "C07.apply_differs", "save #%d: %s: S[%zu] = %a%+aj from the original, %a%+aj from the loaded calibration (data saved at MAX precision or >= 17 digits: must be bit-exact)", saves, nm.c_str(), q, re_(sa[q]), im_(sa[q]), re_(sb[q]), im_(sb[q]));
                 c.label("apply-bit-exact");
             } else if (m.conditioned && pde >= APPLY_MIN_P && oka) {
                 PBT_CHECK(c, okb, "C07.apply_differs", "save #%d: vnacal_apply_m on %s succeeds for the original but fails for the loaded calibration: %s", saves, nm.c_str(), ascii_only(blog.text()).c_str());
